@@ -163,3 +163,11 @@ Fixpoint nowrap_place (w : nat) (cs : list lcell) (row col : nat) : list (option
       else if col + cw <=? w then Some (row, col) :: nowrap_place w t row (col + cw)
       else None :: nowrap_place w t row col
   end.
+
+(* the cells (aligned with the entries) that a placement keeps *)
+Fixpoint keep_placed {A} (xs : list A) (ps : list (option (nat * nat))) : list A :=
+  match xs, ps with
+  | x :: xt, Some _ :: pt => x :: keep_placed xt pt
+  | _ :: xt, None :: pt => keep_placed xt pt
+  | _, _ => []
+  end.
